@@ -14,8 +14,10 @@ THEOREMS = {
     "C13": ("TrVerif.Props.C13", ["Tr.C13_history_independent", "Tr.C13_cache_kind_irrelevant", "Tr.C13_structure"]),
     "C14": ("TrVerif.Props.C14", ["Tr.C14_interleavings", "Tr.C14_progress", "Tr.C14_structure"]),
     "C15": ("TrVerif.Props.C15", ["Tr.C15_answers", "Tr.C15_all", "Tr.C15_schedules", "Tr.C15_old_state_irrelevant", "Tr.C15_status", "Tr.C15_structure", "Tr.C15_order"]),
+    "C17": ("TrVerif.Props.C17", ["Tr.C17_ready_iff", "Tr.C17_names_empty", "Tr.C17_missing_file_not_ready", "Tr.C17_every_request_data_error", "Tr.C17_ready_serves", "Tr.C17_codes", "Tr.C17_tables_cover", "Tr.C17_structure"]),
     "C18": ("TrVerif.Props.C18", ["Tr.C18_index_safe", "Tr.C18_forward_guard", "Tr.C18_codes_documented", "Tr.C18_codes_specific", "Tr.C18_defaults", "Tr.C18_update_names"]),
     "C19": ("TrVerif.Props.C19", ["Tr.C19_summary", "Tr.C19_handlers_mirror"]),
+    "C20": ("TrVerif.Props.C20", ["Tr.C20_recovery", "Tr.C20_faulted_answer", "Tr.C20_fault_lookup", "Tr.C20_classes", "Tr.C20_structure"]),
 }
 
 _CORR = ("Residual risk = model != code, measured on every run by the correspondence (seeded generators -> C++ harness built from "
@@ -86,18 +88,24 @@ _reg("C14", "PROOF (partial by nature): Tr.C14_interleavings - for every schedul
      "Atomicity of the critical sections and the C++ memory model are assumed, not proved: they are observed by driving the real cache through forced schedules "
      "at the hook points (ASan) and by an unforced ThreadSanitizer soak.",
      "Lean 4 theorem over an interleaving model + forced-schedule correspondence at hook points + TSan soak")
-_reg("C15", "NO THEOREM for the refresh protocol (no Lean model of /updateCache): the real server binary (ASan+UBSan) is started on generated cache directories, queried, "
-     "the files are replaced, /updateCache is called for every documented combination, and every later answer is compared with a freshly started server on the new files "
-     "and with the Lean calculation model on the new dataset. Exploration of generated histories, not a proof.",
-     "differential: refreshed server vs fresh server vs Lean calculation model (no theorem)")
+_reg("C15", "PROOF (over the refresh model): Tr.C15_answers - after /updateCache of `all`, or of any list over {schedules, scenarios} containing schedules, the server STATE "
+     "(data, scenario cache, data status) equals the state of a server newly started on the files now on disk, whatever was in memory before (old trips, cache entries of scenarios "
+     "queried before, old status); hence every later answer after every later history coincides. Hypotheses = the property's: the refresh completes, no request in flight, files of other "
+     "kinds unchanged for a partial refresh. Tr.C15_structure / C15_order: regenerated source facts (both update functions clear the cache before re-reading, clear empties both cache kinds, "
+     "status recomputed, call order). The loaders are assumed faithful (C16). Tie: in-process refresh histories (TransitData::update* of the harness vs the model, and vs a fresh TransitData) "
+     "and the real ASan+UBSan binary refreshed over HTTP vs a freshly started one vs the Lean calculation model. Use of freed memory is only observable on the binary.",
+     "Lean 4 theorem (state equality after refresh) + regenerated facts + in-process and real-binary refresh histories")
 _reg("C16", "NO THEOREM for the loader (the byte level of Cap'n Proto is trusted, the field mapping is not modelled in Lean): generated datasets are written as cache directories "
      "with the repository's own schemas, loaded by the real server binary (ASan+UBSan) behind a scripted walking-router stub; every HTTP answer is compared with the in-memory "
      "calculation on the same dataset and with the Lean model, and every itinerary is checked against the dataset by the C01 oracle.",
      "differential: real binary on generated cache files vs in-memory calculation vs Lean model (no theorem)")
-_reg("C17", "NO THEOREM (crash freedom of C++ code on arbitrary bytes is outside what an executable Lean model can exhibit): enumeration of fault classes on generated cache directories "
-     "- each file missing / empty / truncated at generated offsets / bit-flipped / inconsistent with the others (deterministic classes) - against the real ASan+UBSan binary at start-up and "
-     "through /updateCache, with probes that the server then serves what it loaded or answers data_error naming the missing kind.",
-     "fault enumeration against the real sanitized binary (no theorem)", category="fault_enumeration")
+_reg("C17", "PROOF (partial: decision logic only): over every assignment of a fetch outcome (read n items / missing / failed after n items) to every cache kind, Tr.C17_ready_iff, "
+     "C17_names_empty, C17_missing_file_not_ready, C17_every_request_data_error, C17_ready_serves - the status is READY exactly when all seven needed collections are non-empty, otherwise it "
+     "names a collection that really is empty, a missing needed file never gives READY, a non-READY server answers every request after every history with data_error and the documented "
+     "MISSING_DATA_* code and keeps its state, a READY one serves what it loaded; load order, status order and code table are regenerated from the source. NOT proved - no executable model "
+     "exhibits it: that every fetch on arbitrary bytes ends in one of these outcomes without abort, uncaught exception or memory error. That part is fault enumeration against the real "
+     "ASan+UBSan binary at start-up and through /updateCache (every file missing / empty / truncated / bit-flipped / zeroed, every cross-file inconsistency incl. boundary counts).",
+     "Lean 4 theorems (loader decision logic, regenerated tables) + fault enumeration against the real sanitized binary")
 _reg("C18", "PROOF (partial): Tr.C18_index_safe / Tr.C18_forward_guard - both hour look-ups are in range for every integer time and every connection list; documented error codes, "
      "defaults and /updateCache names are regenerated from the source and proved to match the documentation tables. The transport clauses (exactly one response, Content-Length, JSON body, "
      "classification of generated malformed requests, no crash or hang) are observed over raw sockets against the real ASan+UBSan binary.",
@@ -105,10 +113,13 @@ _reg("C18", "PROOF (partial): Tr.C18_index_safe / Tr.C18_forward_guard - both ho
 _reg("C19", "PROOF (full, over the model): Tr.C19_summary - nbRoutes, the set of lines and each line's count equal the number of routes, the lines boarded and the boardings per line of the "
      "/v2/route answer to the same parameters; Tr.C19_handlers_mirror states the regenerated source fact that both handlers run the same calculation. " + _M + " for both endpoints.",
      "Lean 4 theorem + regenerated structural fact + differential correspondence")
-_reg("C20", "NO THEOREM (socket and process behaviour): the scripted walking-router stub injects each fault of the property (refuse, drop, truncate, error status, empty / non-JSON body, "
-     "no durations, nulls, short table) on generated requests against the real ASan+UBSan binary; each answer must be a well-formed documented response, the process must stay up, "
-     "and after recovery every answer must equal the fault-free answer.",
-     "fault enumeration against the real sanitized binary with a scripted router (no theorem)", category="fault_enumeration")
+_reg("C20", "PROOF (partial): Tr.C20_recovery - whatever the router did during any earlier requests (healthy, no stop, throwing; per look-up), a later request is answered exactly as by a "
+     "server that never saw a fault: the only state a request leaves is the scenario cache, whose contents do not depend on the router. Tr.C20_fault_lookup / C20_classes: each listed fault "
+     "makes the client return no stop or throw, a short table yields only stops that were asked for within the limit; a throwing look-up gives the documented query error and leaves the state "
+     "alone (C20_faulted_answer); C20_structure: regenerated facts (one HTTP client per call, no static / mutable member). NOT proved: socket behaviour, that the process stays up, HTTP "
+     "framing - observed with a scripted router against the real ASan+UBSan binary, whose answers under each fault are compared with the model's outcome classes and after recovery with a "
+     "server that never saw a fault.",
+     "Lean 4 theorems (recovery = history independence under arbitrary router behaviour; client outcome classes) + scripted-router fault sequences against the real binary")
 
 NOT_APPLICABLE = []
 
